@@ -199,12 +199,12 @@ Lemma not_reserved_details : is_reserved hdr_grpc_status_details = false. Proof.
 Theorem status_roundtrip_md st m0 :
   well_formed st ->
   exists h, add_header st m0 = Some h /\
-  forall k, is_reserved k = false -> k <> hdr_grpc_status_details ->
+  forall k, is_reserved k = false -> (details_value st = None \/ k <> hdr_grpc_status_details) ->
     hm_get_all (from_headers h) k = match hm_get_all (st_md st) k with [] => hm_get_all m0 k | l => l end.
 Proof.
   intros WF. destruct (add_header_wire st m0 WF) as (h & cv & Hh & _ & Hpt).
   exists h. split; [exact Hh|]. intros k Hk Hd. unfold from_headers. rewrite Hpt.
-  rewrite (set_by_false _ _ _ (or_intror Hd)).
+  rewrite (set_by_false _ _ _ Hd).
   assert (M : set_by hdr_grpc_message (msg_value st) k = false).
   { destruct (msg_value st); [|reflexivity]. apply (reserved_neq _ _ reserved_message_name Hk). }
   rewrite M, (reserved_neq _ _ reserved_status_name Hk), Hk. reflexivity.
@@ -430,3 +430,245 @@ Theorem insert_append_spec m n v k :
   hm_get_all (insert m n v) k = (if bytes_eqb n k then [v] else hm_get_all m k) /\
   hm_get_all (append m n v) k = hm_get_all m k ++ (if bytes_eqb n k then [v] else []).
 Proof. split; [apply get_all_insert | apply get_all_append]. Qed.
+
+(* ------------------------------------------------------------------ keys, values, *_mut *)
+Lemma hm_names_In m k : In k (hm_names m) <-> hm_contains m k = true.
+Proof.
+  unfold hm_contains. induction m as [|e m IH]; cbn [hm_names existsb In]; [split; [tauto|discriminate]|].
+  unfold key_is at 1. rewrite orb_true_iff, <- IH, filter_In, negb_true_iff. split.
+  - intros [H|[H _]]; [left; subst; apply bytes_eqb_refl | right; exact H].
+  - intros [H|H]; [left; now apply bytes_eqb_eq in H|].
+    destruct (bytes_eqb k (fst e)) eqn:E; [left; apply bytes_eqb_eq in E; now subst | right; auto].
+Qed.
+
+Lemma hm_names_NoDup m : NoDup (hm_names m).
+Proof.
+  induction m as [|e m IH]; cbn [hm_names]; constructor.
+  - rewrite filter_In, bytes_eqb_refl. intros [_ H]. discriminate.
+  - now apply NoDup_filter.
+Qed.
+
+(* keys: every name of the map exactly once, tagged by its suffix *)
+Theorem keys_typing m :
+  NoDup (map snd (keys m)) /\
+  (forall k, In k (map snd (keys m)) <-> hm_contains m k = true) /\
+  (forall t k, In (t, k) (keys m) -> t = bin_suffix k).
+Proof.
+  assert (E : map snd (keys m) = hm_names m).
+  { unfold keys. rewrite map_map. cbn [snd]. apply map_id. }
+  rewrite E. split; [apply hm_names_NoDup|]. split; [apply hm_names_In|].
+  intros t k H. unfold keys in H. apply in_map_iff in H as [k' [[= <- <-] _]].
+  unfold ascii_key. apply negb_involutive.
+Qed.
+
+(* values / values_mut / iter_mut: every entry exactly once, in the order of the map, tagged
+   by the suffix of the name it is stored under *)
+Theorem values_typing m :
+  values m = map (fun e => (bin_suffix (fst e), snd e)) m /\
+  values_mut m = values m /\ iter_mut m = iter m /\
+  map snd (values m) = map snd m.
+Proof.
+  assert (V : values m = map (fun e => (bin_suffix (fst e), snd e)) m).
+  { unfold values. apply map_ext. intros e. unfold ascii_key. now rewrite negb_involutive. }
+  split; [exact V|]. split; [reflexivity|]. split; [reflexivity|].
+  rewrite V, map_map. reflexivity.
+Qed.
+
+(* whatever the caller stores through the references of values_mut / iter_mut, it stores a
+   value chosen for tag = suffix of the name, once per entry *)
+Lemma get_all_map_values (g : hname -> hvalue -> hvalue) m k :
+  hm_get_all (map (fun e => (fst e, g (fst e) (snd e))) m) k = map (g k) (hm_get_all m k).
+Proof.
+  unfold hm_get_all. induction m as [|[n w] m IH]; [reflexivity|].
+  cbn [map filter fst snd].
+  change (key_is k (n, g n w)) with (bytes_eqb n k). change (key_is k (n, w)) with (bytes_eqb n k).
+  destruct (bytes_eqb n k) eqn:E.
+  - apply bytes_eqb_eq in E. subst n. cbn [map snd]. f_equal. exact IH.
+  - exact IH.
+Qed.
+
+Theorem mut_apply_spec f m k :
+  hm_get_all (values_mut_apply f m) k = map (f (bin_suffix k)) (hm_get_all m k) /\
+  hm_get_all (iter_mut_apply f m) k = map (f (bin_suffix k)) (hm_get_all m k).
+Proof.
+  assert (H : hm_get_all (values_mut_apply f m) k = map (f (bin_suffix k)) (hm_get_all m k)).
+  { pose proof (get_all_map_values (fun n => f (negb (ascii_key n))) m k) as G.
+    unfold ascii_key in G. rewrite negb_involutive in G. exact G. }
+  split; exact H.
+Qed.
+
+Lemma get_all_set_first m k v k' :
+  hm_get_all (hm_set_first m k v) k' =
+  if bytes_eqb k k' then match hm_get_all m k with [] => [] | _ :: t => v :: t end else hm_get_all m k'.
+Proof.
+  unfold hm_get_all. induction m as [|[n w] m IH]; cbn [hm_set_first].
+  - now destruct (bytes_eqb k k').
+  - change (key_is k (n, w)) with (bytes_eqb n k). cbn [fst]. destruct (bytes_eqb n k) eqn:E.
+    + apply bytes_eqb_eq in E. subst n. cbn [filter].
+      change (key_is k' (k, v)) with (bytes_eqb k k'). change (key_is k' (k, w)) with (bytes_eqb k k').
+      change (key_is k (k, w)) with (bytes_eqb k k). rewrite bytes_eqb_refl.
+      destruct (bytes_eqb k k') eqn:E2; [|reflexivity].
+      apply bytes_eqb_eq in E2. subst k'. reflexivity.
+    + cbn [filter].
+      change (key_is k' (n, w)) with (bytes_eqb n k'). change (key_is k (n, w)) with (bytes_eqb n k).
+      rewrite E. destruct (bytes_eqb k k') eqn:E2.
+      * apply bytes_eqb_eq in E2. subst k'. rewrite E. exact IH.
+      * destruct (bytes_eqb n k'); cbn [map snd]; now rewrite IH.
+Qed.
+
+(* get_mut / get_bin_mut are the typed lookups of get / get_bin; writing through them touches
+   only the first value of a name of the right kind *)
+Theorem get_mut_typing m raw v :
+  get_mut m raw = get m raw /\ get_bin_mut m raw = get_bin m raw /\
+  (bin_suffix raw = true -> get_mut_set m raw v = m) /\
+  (bin_suffix raw = false -> get_bin_mut_set m raw v = m) /\
+  (forall k k', hn_norm raw = Some k -> bin_suffix k = false ->
+     hm_get_all (get_mut_set m raw v) k' =
+     if bytes_eqb k k' then match hm_get_all m k with [] => [] | _ :: t => v :: t end else hm_get_all m k') /\
+  (forall k k', hn_norm raw = Some k -> bin_suffix k = true ->
+     hm_get_all (get_bin_mut_set m raw v) k' =
+     if bytes_eqb k k' then match hm_get_all m k with [] => [] | _ :: t => v :: t end else hm_get_all m k').
+Proof.
+  split; [reflexivity|]. split; [reflexivity|].
+  split; [intros H; now apply str_lookup_wrong|]. split; [intros H; now apply str_lookup_wrong|].
+  split; intros k k' N S; pose proof (bin_suffix_norm _ _ N) as S'; rewrite S in S';
+    unfold get_mut_set, get_bin_mut_set, str_lookup; rewrite <- S', N; apply get_all_set_first.
+Qed.
+
+(* ------------------------------------------------------------------ Entry API *)
+(* a handle exists only for a key string of the handle's kind, stands on the normalised name,
+   whose suffix is the handle's encoding, and is Occupied exactly when the name is present *)
+Theorem entry_typing bin m raw :
+  (bin_suffix raw = negb bin -> entry_str bin m raw = None) /\
+  (forall e, entry_str bin m raw = Some e ->
+     entry_bin_of e = bin /\ hn_norm raw = Some (entry_key e) /\ bin_suffix (entry_key e) = bin /\
+     match e with Occupied _ k => hm_contains m k = true | Vacant _ k => hm_contains m k = false end).
+Proof.
+  split.
+  - intros H. unfold entry_str. rewrite H. now destruct bin.
+  - intros e. unfold entry_str. destruct (Bool.eqb (bin_suffix raw) bin) eqn:E; cbn [negb]; [|discriminate].
+    destruct (hn_norm raw) as [k|] eqn:N; [|discriminate]. apply eqb_prop in E.
+    pose proof (bin_suffix_norm _ _ N) as S.
+    destruct (hm_contains m k) eqn:C; intros [= <-]; cbn [entry_bin_of entry_key]; rewrite S; auto.
+Qed.
+
+Theorem entry_key_typed_spec bin m k :
+  entry_bin_of (entry_key_typed bin m k) = bin /\ entry_key (entry_key_typed bin m k) = k.
+Proof. unfold entry_key_typed. destruct (hm_contains m k); auto. Qed.
+
+(* insert_entry hands back a handle of the SAME encoding on the same name (F-C08b) *)
+Theorem insert_entry_typing bin m k v :
+  let '(m', e) := vacant_insert_entry bin m k v in
+  entry_bin_of e = bin /\ entry_key e = k /\
+  (forall k', hm_get_all m' k' = hm_get_all m k' ++ (if bytes_eqb k k' then [v] else [])).
+Proof. cbn. repeat split. intros k'. apply get_all_append. Qed.
+
+(* every value an occupied handle shows (get, iter, and what insert / insert_mult / remove /
+   remove_entry_mult return) is an entry of the map under the handle's name *)
+Theorem occ_values_typed m k v w :
+  (occ_get m k = Some v \/ In v (occ_iter m k) \/
+   snd (occ_insert m k w) = Some v \/
+   (exists m' olds, occ_insert_mult m k w = Val (m', olds) /\ In v olds) \/
+   snd (occ_remove m k) = Some v \/ In v (snd (snd (occ_remove_entry_mult m k)))) ->
+  In (k, v) m.
+Proof.
+  unfold occ_get, occ_iter, occ_insert, occ_insert_mult, occ_remove, occ_remove_entry_mult. cbn [snd].
+  intros [H|[H|[H|[H|[H|H]]]]]; auto using hm_get_In, hm_get_all_In.
+  destruct H as (m' & olds & E & Hin). destruct (_ <=? _)%nat; [discriminate|].
+  injection E as <- <-. auto using hm_get_all_In.
+Qed.
+
+(* insert_mult reaches a panic inside crate http exactly when the name has >= 3 values;
+   otherwise it replaces all values and hands back the old ones in order *)
+Theorem insert_mult_spec m k v :
+  (occ_insert_mult m k v = Panic <-> (3 <= List.length (hm_get_all m k))%nat) /\
+  (forall m' olds, occ_insert_mult m k v = Val (m', olds) ->
+     olds = hm_get_all m k /\
+     forall k', hm_get_all m' k' = (if bytes_eqb k k' then [v] else hm_get_all m k')).
+Proof.
+  unfold occ_insert_mult. destruct (3 <=? List.length (hm_get_all m k))%nat eqn:E.
+  - split; [split; [intros _; now apply Nat.leb_le|reflexivity]|discriminate].
+  - split; [split; [discriminate|intros H; apply Nat.leb_le in H; congruence]|].
+    intros m' olds [= <- <-]. split; [reflexivity|]. intros k'. apply get_all_insert.
+Qed.
+
+(* the map after each handle operation, name by name: only the handle's name changes *)
+Theorem entry_ops_spec m k v k' :
+  hm_get_all (vacant_insert m k v) k' = hm_get_all m k' ++ (if bytes_eqb k k' then [v] else []) /\
+  hm_get_all (fst (occ_insert m k v)) k' = (if bytes_eqb k k' then [v] else hm_get_all m k') /\
+  hm_get_all (occ_append m k v) k' = hm_get_all m k' ++ (if bytes_eqb k k' then [v] else []) /\
+  hm_get_all (fst (occ_remove m k)) k' = (if bytes_eqb k k' then [] else hm_get_all m k') /\
+  hm_get_all (fst (occ_remove_entry_mult m k)) k' = (if bytes_eqb k k' then [] else hm_get_all m k').
+Proof.
+  unfold vacant_insert, occ_insert, occ_append, occ_remove, occ_remove_entry_mult. cbn [fst].
+  repeat split; auto using get_all_append, get_all_insert, get_all_remove.
+Qed.
+
+(* ------------------------------------------------------------------ binary, end to end *)
+Lemma reserved_not_bin : forallb (fun r => negb (bin_suffix r)) reserved_headers = true.
+Proof. reflexivity. Qed.
+
+Lemma bin_not_reserved k : bin_suffix k = true -> is_reserved k = false.
+Proof.
+  intros B. destruct (is_reserved k) eqn:R; [|reflexivity]. unfold is_reserved in R.
+  apply existsb_exists in R as [r [Hin E]]. apply bytes_eqb_eq in E. subst r.
+  pose proof reserved_not_bin as H. rewrite forallb_forall in H. specialize (H _ Hin).
+  rewrite B in H. discriminate.
+Qed.
+
+Lemma get_all_fold_append (vs : list hvalue) m k k' :
+  hm_get_all (fold_left (fun m v => append m k v) vs m) k' =
+  hm_get_all m k' ++ (if bytes_eqb k k' then vs else []).
+Proof.
+  revert m. induction vs as [|v vs IH]; intros m; cbn [fold_left].
+  - destruct (bytes_eqb k k'); now rewrite app_nil_r.
+  - rewrite IH. unfold append. rewrite get_all_append, <- app_assoc.
+    now destruct (bytes_eqb k k').
+Qed.
+
+Lemma fold_left_map_arg {A B C} (f : A -> C -> A) (g : B -> C) l a :
+  fold_left (fun a b => f a (g b)) l a = fold_left f (map g l) a.
+Proof. revert a. induction l as [|x l IH]; intros a; [reflexivity|]. cbn [fold_left map]. apply IH. Qed.
+
+(* append_bin(key, from_bytes(b)) for each b, sent by a client or returned by a handler, read
+   by the peer with get_all_bin under the key as the peer writes it (any case) and to_bytes():
+   the original byte strings, in order *)
+Theorem binary_end_to_end raw_s raw_r k bs md0 :
+  mk_key true raw_s = Some k -> hn_norm raw_r = Some k ->
+  forallb bytes_ok bs = true -> hm_get_all md0 k = [] ->
+  let md := fold_left (fun m b => append m k (enc false b)) bs md0 in
+  (forall send accept, (send = None \/ k <> hdr_grpc_encoding) -> (accept = None \/ k <> hdr_grpc_accept_encoding) ->
+     map bin_decode (get_all_bin (from_headers (client_request_headers send accept md)) raw_r) = map Some bs) /\
+  (forall encoding, (encoding = None \/ k <> hdr_grpc_encoding) ->
+     map bin_decode (get_all_bin (from_headers (server_response_headers encoding md)) raw_r) = map Some bs).
+Proof.
+  intros K N B E md.
+  apply mk_key_typing in K as [_ S]. pose proof (bin_not_reserved _ S) as R.
+  assert (G : hm_get_all md k = map (enc false) bs).
+  { unfold md. rewrite (fold_left_map_arg (fun m v => append m k v) (enc false)).
+    rewrite get_all_fold_append, E, bytes_eqb_refl. reflexivity. }
+  destruct (accessor_complete (from_headers md) raw_r k N) as [_ A].
+  split.
+  - intros send accept Hs Ha.
+    destruct (accessor_complete (from_headers (client_request_headers send accept md)) raw_r k N) as [_ A'].
+    destruct (A' S) as [_ ->]. rewrite (client_roundtrip send accept md k R Hs Ha), G.
+    now apply bin_values_roundtrip.
+  - intros encoding Hs.
+    destruct (accessor_complete (from_headers (server_response_headers encoding md)) raw_r k N) as [_ A'].
+    destruct (A' S) as [_ ->]. rewrite (server_roundtrip encoding md k R Hs), G.
+    now apply bin_values_roundtrip.
+Qed.
+
+(* a peer that codes each value padded or unpadded as it likes *)
+Theorem binary_from_peer raw k (pbs : list (bool * list N)) h :
+  hn_norm raw = Some k -> bin_suffix k = true ->
+  forallb (fun pb => bytes_ok (snd pb)) pbs = true ->
+  hm_get_all h k = map (fun pb => enc (fst pb) (snd pb)) pbs ->
+  map bin_decode (get_all_bin (from_headers h) raw) = map (fun pb => Some (snd pb)) pbs.
+Proof.
+  intros N S B G. destruct (accessor_complete (from_headers h) raw k N) as [_ A].
+  destruct (A S) as [_ ->]. unfold from_headers. rewrite G. clear G.
+  induction pbs as [|[p b] pbs IH]; [reflexivity|]. cbn [forallb map fst snd] in *.
+  apply andb_true_iff in B as [Hb Hbs]. unfold bin_decode at 1. rewrite dec_enc by exact Hb.
+  now rewrite IH.
+Qed.
